@@ -3,6 +3,7 @@ package bmreqs
 import (
 	"errors"
 	"fmt"
+	"sort"
 	"strings"
 )
 
@@ -169,15 +170,21 @@ func (rg *ReqRoot) recursiveDump(node string) (string, error) {
 
 func (rg *ReqRoot) Export(r *ExportedReqs, node string) error {
 	if n, err := rg.decodeNode(node); err == nil {
-		for name, set := range n.bmReqMap {
+		names := make([]string, 0, len(n.bmReqMap))
+		for name := range n.bmReqMap {
+			names = append(names, name)
+		}
+		sort.Strings(names)
+		prefix := node
+		if node == "/" {
+			prefix = ""
+		}
+		for _, name := range names {
+			set := n.bmReqMap[name]
 			*r = append(*r, ExportedReq{Node: node, Type: set.getType(), Req: set.getReqs(), Name: name})
 			if set.supportSub() {
-				subs := set.listSub()
-				for _, sub := range subs {
-					if node == "/" {
-						node = node[1:]
-					}
-					rg.Export(r, node+"/"+name+":"+sub)
+				for _, sub := range set.listSub() {
+					rg.Export(r, prefix+"/"+name+":"+sub)
 				}
 			}
 		}
